@@ -419,6 +419,22 @@ def check(spec, ctx):
     if set(a) != set(c) or any(a[k] != c[k] for k in a if not (np.isnan(a[k]) and np.isnan(c[k]))) or not _same_score(ev3.score, ev.score):
         ctx.fail(f"{task} on ({S1.__name__}, {S2.__name__}, {S3.__name__}) inputs differs from the call on lists: {c} / {ev3.score} vs {a} / {ev.score}", spec, c, a, kind="sequence_inputs")
 
+    # two evaluations running in two threads: this one is suspended at lines inside the library while the other thread runs the same
+    # task on the clips in reverse order against the reversed vocabulary (without its first class when there are more than two)
+    def digest(e):
+        return repr((e.score, sorted(features(e.metrics), key=repr), [(c.score, sorted(features(c.metrics), key=repr), len(c.matches)) for c in e.clip_evaluations]))
+
+    vocab_b = (list(vocab)[1:] if len(vocab) > 2 else list(vocab))[::-1]
+
+    def run_b():
+        with warnings.catch_warnings():
+            warnings.simplefilter("ignore")
+            return digest(fn(cps[::-1], cas[::-1], vocab_b))
+
+    with warnings.catch_warnings():
+        warnings.simplefilter("ignore")
+        ctx.interleave(spec, task, lambda: digest(fn(cps, cas, vocab)), run_b, every=6, max_pauses=14)
+
     # AOEF round trip keeps every metric
     path = os.path.join(scratch(), "eval09.json")
     ctx.call(spec, "io.save(evaluation)", io.save, ev, path)
